@@ -57,8 +57,36 @@ KF_C08(c) ==
        DecoratedEmptyLink(Dom1(c, run), Cf(run.cfg)) /\ ModelAgrees(c, run)
   THEN "decorated-empty-link" ELSE ""
 
+\* C05 / C06 "colspan-over-empty-column": a column that is empty in every row gets width 0 and its
+\* separator is not drawn, but a cell spanning it together with a non-empty column still counts one
+\* separator per spanned column (into_cells: sum + colspan - 1), so that row is one column wider than
+\* the others: ragged lines, bars out of line.  (The only correct repair changes the output pinned
+\* by test_colspan_large, see DESIGN.md.)  Class: the top-level table, laid out by the specification
+\* at the render width, has such a cell, and the output is exactly what the specification predicts.
+RECURSIVE FirstTable(_)
+FirstTableSeq(ns) == FoldLeft(LAMBDA a, n : IF IsNull(a) THEN FirstTable(n) ELSE a, Null, ns)
+FirstTable(n) == IF n.kind = "Table" THEN n
+                 ELSE IF "c" \in DOMAIN n /\ n.kind \notin {"TableRow", "TableCell"} THEN FirstTableSeq(n.c) ELSE Null
+SpansEmptyColumn(c, run) ==
+  LET cf == Cf(run.cfg)
+      t == FirstTable(RenderTreeOf(c.doms[run.d], cf)) IN
+  ~IsNull(t) /\
+  LET lay == TableLayout(t, run.w, cf) IN
+  ~lay.vert /\
+  \E i \in 1..Len(t.c) :
+     LET row == t.c[i]
+         starts == [j \in 1..Len(row.c) |-> SumSeq([q \in 1..(j - 1) |-> row.c[q].colspan])] IN
+     \E j \in 1..Len(row.c) :
+        /\ row.c[j].colspan >= 2
+        /\ \E q \in (starts[j] + 1)..(starts[j] + row.c[j].colspan) : lay.cw[q] = 0
+        /\ \E q \in (starts[j] + 1)..(starts[j] + row.c[j].colspan) : lay.cw[q] > 0
+KF_Table(c) ==
+  IF \A i \in 1..Len(c.runs) : SpansEmptyColumn(c, c.runs[i]) /\ ModelAgrees(c, c.runs[i])
+  THEN "colspan-over-empty-column" ELSE ""
+
 KFClass(prop, c) ==
   CASE prop = "C12" -> KF_C12(c)
+    [] prop \in {"C05", "C06"} -> KF_Table(c)
     [] prop = "C08" -> KF_C08(c)
     [] prop = "C15" -> KF_C15(c)
     [] prop = "C13" -> KF_C13(c)
